@@ -136,6 +136,9 @@ enum TransientSourceState<T> {
     Register(T),
     /// The source needs to be disabled but kept.
     Disable(T),
+    /// The source has been disabled (it is not registered any more) and is kept
+    /// until the wrapper itself is registered anew.
+    Disabled(T),
     /// The source needs to be removed from the loop.
     Remove(T),
     /// The source is being replaced by another. For most API purposes (eg.
@@ -180,6 +183,7 @@ impl<T> TransientSourceState<T> {
             | Self::Register(source)
             | Self::Remove(source)
             | Self::Disable(source)
+            | Self::Disabled(source)
             | Self::Replace { new: source, .. } => replacer(source),
             Self::None => return,
         };
@@ -197,6 +201,7 @@ impl<T> TransientSource<T> {
             TransientSourceState::Keep(source)
             | TransientSourceState::Register(source)
             | TransientSourceState::Disable(source)
+            | TransientSourceState::Disabled(source)
             | TransientSourceState::Replace { new: source, .. } => Some(f(source)),
             TransientSourceState::Remove(_) | TransientSourceState::None => None,
         }
@@ -304,6 +309,7 @@ impl<T: crate::EventSource> crate::EventSource for TransientSource<T> {
             }
             TransientSourceState::Register(source)
             | TransientSourceState::Disable(source)
+            | TransientSourceState::Disabled(source)
             | TransientSourceState::Replace { new: source, .. } => {
                 source.register(poll, token_factory)?;
                 self.state.replace_state(TransientSourceState::Keep);
@@ -330,7 +336,10 @@ impl<T: crate::EventSource> crate::EventSource for TransientSource<T> {
             }
             TransientSourceState::Disable(source) => {
                 source.unregister(poll)?;
+                // Remember that this is done, the source must not be unregistered twice.
+                self.state.replace_state(TransientSourceState::Disabled);
             }
+            TransientSourceState::Disabled(_) => (),
             TransientSourceState::Remove(source) => {
                 source.unregister(poll)?;
                 self.state.replace_state(|_| TransientSourceState::None);
@@ -349,8 +358,12 @@ impl<T: crate::EventSource> crate::EventSource for TransientSource<T> {
     fn unregister(&mut self, poll: &mut crate::Poll) -> crate::Result<()> {
         match &mut self.state {
             TransientSourceState::Keep(source)
-            | TransientSourceState::Register(source)
-            | TransientSourceState::Disable(source) => source.unregister(poll)?,
+            | TransientSourceState::Register(source) => source.unregister(poll)?,
+            TransientSourceState::Disable(source) => {
+                source.unregister(poll)?;
+                self.state.replace_state(TransientSourceState::Disabled);
+            }
+            TransientSourceState::Disabled(_) => (),
             TransientSourceState::Remove(source) => {
                 source.unregister(poll)?;
                 self.state.replace_state(|_| TransientSourceState::None);
